@@ -130,7 +130,9 @@ def boundary_worker(arg):
             attrs += [pydsdl.Constant(u8, "C%d" % i, pydsdl._expression.Rational(1)) for i in range(extra)]
             from pathlib import Path
             try:
-                un = pydsdl.UnionType(name="ns.U", version=pydsdl.Version(1, 0), attributes=attrs, deprecated=False,
+                # the attributes arrive as a list, a tuple or a one-shot iterable (the parameter is an Iterable)
+                form = attrs if (nv + extra) % 3 == 0 else tuple(attrs) if (nv + extra) % 3 == 1 else (a_ for a_ in attrs)
+                un = pydsdl.UnionType(name="ns.U", version=pydsdl.Version(1, 0), attributes=form, deprecated=False,
                                       fixed_port_id=None, source_file_path=Path("/nonexistent/ns/U.1.0.dsdl"),
                                       has_parent_service=False)
                 w = un.tag_field_type.bit_length
